@@ -14,9 +14,9 @@ Definition pol_inv (p : policy) (q : qstate) : Prop :=
     (forall k, 0 <= trials_of (q_data q) k)
   | PGrouped _ => forall k, 0 < trials_of (q_data q) k -> In k (q_ordering q)
   | PInter keep =>
-    (q_complete q = true -> forall k, trials_of (q_data q) k <= 0) /\
+    (q_complete q = true \/ q_ordering q = [] -> forall k, trials_of (q_data q) k <= 0) /\
     (keep = false -> forall k, 0 <= trials_of (q_data q) k)
-  | PBlockedRandom => q_complete q = true -> forall k, trials_of (q_data q) k <= 0
+  | PBlockedRandom => q_complete q = true \/ q_ordering q = [] -> forall k, trials_of (q_data q) k <= 0
   end.
 
 Record inv (p : policy) (es : list entry) (q : qstate) (ev : list event) : Prop := {
@@ -102,11 +102,14 @@ Proof.
     { intros k. destruct (T k) as [T1 T2].
       destruct (Z_le_dec 0 k); [destruct (Z_lt_dec k (zlen es)); [specialize (T1 (conj l l0)); lia|]|]; rewrite T2; lia. }
     unfold pol_inv. cbn [qinit q_ordering q_data q_complete].
+    assert (E0 : zrange (fun i => i) 0 (zlen es) = [] -> forall k, trials_of es k <= 0).
+    { intros E k. assert (Hin : In 0 (zrange (fun i => i) 0 (zlen es))) by (apply In_zrange_id; lia).
+      rewrite E in Hin. destruct Hin. }
     destruct p.
     + split; [apply NoDup_zr_id|]. split; assumption.
-    + split; [discriminate|]. intros _. exact N.
+    + split; [intros [H|H]; [discriminate|apply E0; exact H]|]. intros _. exact N.
     + split; [apply NoDup_zr_id|]. split; assumption.
-    + discriminate.
+    + intros [H|H]; [discriminate|apply E0; exact H].
     + intros k Hk. apply O. lia.
 Qed.
 
@@ -157,12 +160,15 @@ Proof.
     - split; [exact ND|]. split.
       + intros k. rewrite T, IO. destruct (Z.eqb_spec k key); [subst|]; lia.
       + intros k. rewrite T. specialize (NN k). destruct (Z.eqb_spec k key); [subst|]; lia. }
-  assert (CR : (q_complete q = true -> forall k, trials_of (q_data q) k <= 0) ->
+  assert (CR : (q_complete q = true \/ q_ordering q = [] -> forall k, trials_of (q_data q) k <= 0) ->
                q_complete q' = q_complete q || all_done (upd_entry (q_data q) key (add_trials (-1))) ->
-               q_complete q' = true -> forall k, trials_of (q_data q') k <= 0).
-  { clear PI O C TI. intros Old C C' k. rewrite C in C'. apply orb_true_iff in C'. destruct C' as [C'|C'].
-    - rewrite T. specialize (Old C' k). destruct (k =? key); lia.
-    - rewrite all_done_iff in C'. specialize (C' k). rewrite T1 in C'. rewrite T. exact C'. }
+               q_ordering q' = q_ordering q ->
+               q_complete q' = true \/ q_ordering q' = [] -> forall k, trials_of (q_data q') k <= 0).
+  { clear PI O C TI. intros Old C O [C'|C'] k.
+    - rewrite C in C'. apply orb_true_iff in C'. destruct C' as [C'|C'].
+      + rewrite T. specialize (Old (or_introl C') k). destruct (k =? key); lia.
+      + rewrite all_done_iff in C'. specialize (C' k). rewrite T1 in C'. rewrite T. exact C'.
+    - rewrite O in C'. rewrite C' in M. destruct M. }
   destruct (q_pol q) eqn:P.
   - apply FR; assumption.
   - destruct PI as [PI1 PI2]. split; [apply CR; assumption|].
@@ -328,12 +334,25 @@ Proof.
       - intros k. rewrite In_requeue_ord, T, IO, <- countZ_pos_In.
         specialize (NN k). pose proof (countZ_nonneg k l). lia.
       - intros k. rewrite T. specialize (NN k). pose proof (countZ_nonneg k l). lia. }
+    assert (OE : (q_complete q = true \/ q_ordering q = [] -> forall k, trials_of (q_data q) k <= 0) ->
+                 all_done d2 = true \/ requeue_ord l (q_ordering q) = [] -> forall k, trials_of d2 k <= 0).
+    { intros Old [C|C]; [apply all_done_iff; exact C|]. intros k. rewrite T.
+      assert (Onil : q_ordering q = []).
+      { destruct (q_ordering q) as [|x o'] eqn:EO; [reflexivity|]. exfalso.
+        assert (Hx : In x (requeue_ord l (x :: o'))) by (apply In_requeue_ord; right; left; reflexivity).
+        try rewrite EO in C. rewrite C in Hx. destruct Hx. }
+      assert (Cz : countZ k l = 0).
+      { pose proof (countZ_nonneg k l). destruct (Z_lt_dec 0 (countZ k l)) as [Hc|Hc]; [|lia]. exfalso.
+        apply countZ_pos_In in Hc.
+        assert (Hx : In k (requeue_ord l (q_ordering q))) by (apply In_requeue_ord; left; exact Hc).
+        rewrite C in Hx. destruct Hx. }
+      specialize (Old (or_intror Onil) k). lia. }
     rewrite I1. destruct p.
     + apply FR. exact I8.
-    + destruct I8 as [_ I8]. split; [intros C; apply all_done_iff; exact C|].
+    + destruct I8 as [I8a I8]. split; [apply OE; exact I8a|].
       intros K k. rewrite T. specialize (I8 K k). pose proof (countZ_nonneg k l). lia.
     + apply FR. exact I8.
-    + intros C. apply all_done_iff. exact C.
+    + apply OE. exact I8.
     + intros k Hk. rewrite T in Hk. apply In_requeue_ord.
       destruct (Z_lt_dec 0 (countZ k l)); [left; apply countZ_pos_In; assumption|].
       right. apply I8. lia.
